@@ -1,10 +1,5 @@
-// u_pwin — manager/packet_window.rs under contract (C11).
-// Real items are spliced from /repo on every run; everything else in this file is specification.
-use vstd::prelude::*;
-verus! {
-
+// ---- part pwin: manager/packet_window.rs ----
 // ---------------------------------------------------------------- specification (C11)
-use bv2::*;
 spec fn slot(id: u64) -> int { ((id / 64) % 128) as int }
 spec fn cleared(cur: int, n: int, j: int) -> bool { ((j - (cur + 1)) % 128) < n }
 spec fn lo(last: u64) -> u64 { if last >= 8128 { (last - 8128) as u64 } else { 0 } }
@@ -27,37 +22,11 @@ spec fn step_ok(o: PacketWindowFilter, id: u64, limit: u64, f: PacketWindowFilte
     if early_reject(o, id, limit) { !r && f == o } else { raw_post(o, id, f, r) }
 }
 
-pub mod bv {
-use vstd::prelude::*;
-pub broadcast proof fn lemma_shr6(x: u64) by (bit_vector)
-    ensures #[trigger] (x >> 6) == x / 64 {}
-pub broadcast proof fn lemma_and127(x: u64) by (bit_vector)
-    ensures #[trigger] (x & 127) == x % 128 {}
-pub broadcast proof fn lemma_and63(x: u64) by (bit_vector)
-    ensures #[trigger] (x & 63) == x % 64 {}
-}
-use bv::*;
-broadcast use lemma_shr6, lemma_and127, lemma_and63;
-
 spec fn marked(f: PacketWindowFilter, id: u64) -> bool { bit(f.packet_ring[slot(id)], id % 64) }
 spec fn in_window(f: PacketWindowFilter, id: u64) -> bool { lo(f.last_packet_id) <= id <= f.last_packet_id }
 spec fn seen(f: PacketWindowFilter, id: u64) -> bool { in_window(f, id) && marked(f, id) }
 spec fn wf(f: PacketWindowFilter) -> bool {
     forall|id: u64| f.last_packet_id < id && (id / 64) == (f.last_packet_id / 64) ==> !#[trigger] marked(f, id)
-}
-pub mod bv2 {
-use vstd::prelude::*;
-pub open spec fn setbit(w: u64, b: u64) -> u64 { w | (1u64 << b) }
-pub open spec fn bit(w: u64, c: u64) -> bool { (w >> c) & 1 == 1 }
-pub proof fn lemma_bit_zero(c: u64) by (bit_vector)
-    requires c < 64
-    ensures !bit(0u64, c) {}
-pub proof fn lemma_bit_or(w: u64, b: u64, c: u64) by (bit_vector)
-    requires b < 64, c < 64
-    ensures bit(setbit(w, b), c) == (bit(w, c) || c == b) {}
-pub proof fn lemma_or_changed(w: u64, b: u64) by (bit_vector)
-    requires b < 64
-    ensures (w != setbit(w, b)) == !bit(w, b) {}
 }
 
 // value of the final ring for an id in the *new* window
@@ -400,5 +369,3 @@ impl PacketWindowFilter {
     }
 }
 
-} // verus!
-fn main() {}
